@@ -253,6 +253,8 @@ class C13(Property):
             yield self.rand_dock(rng)
         for _ in range(1200 * mult):
             yield self.rand_cp(rng)
+        for _ in range(800 * mult):
+            yield self.rand_refinerec(rng)
         for _ in range(1000 * mult):
             yield self.rand_runhmmer(rng)
         for _ in range(800 * mult):
@@ -395,6 +397,22 @@ class C13(Property):
         rng.shuffle(raw)
         return {"kind": "cp", "cut": cut, "eq": eq, "raw": raw, "ngenes": ngenes, "pseed": rng.randrange(1 << 30)}
 
+    def rand_refinerec(self, rng: random.Random) -> Dict[str, Any]:
+        """a whole hmmscan output: HSPs [gene, hit] of several genes, interleaved"""
+        lens = self.rand_lens(rng)
+        ngenes = rng.choice([1, 2, 3, 4])
+        raw = []
+        for g in range(ngenes):
+            if rng.random() < 0.15:
+                continue                                   # a gene without any hit
+            hits = self.rand_hits(rng, lens, nmax=5) if rng.random() < 0.7 else self.rand_tie_rich(rng)["hits"]
+            if rng.random() < 0.2:                         # only fragments that the incomplete rule removes
+                hits = [[h[0], h[1], h[1] + 1, h[3], h[4]] for h in hits[:2]]
+            raw.extend([g, h] for h in hits)
+        rng.shuffle(raw)
+        return {"kind": "refinerec", "lens": lens, "nb": rng.random() < 0.5, "raw": raw, "ngenes": ngenes,
+                "pseed": rng.randrange(1 << 30)}
+
     def rand_runhmmer(self, rng: random.Random) -> Dict[str, Any]:
         """raw hmmscan HSPs: [gene, ident, start, end, sc (quarters), ev] + the score / e-value cuts"""
         base = self.rand_hmmer(rng)
@@ -412,7 +430,7 @@ class C13(Property):
                 raw.append([g, h[0], h[1], h[2], sc, [1, 2, 3, 5][(h[0] + h[1] + 3 * h[2] + sc) % 4]])
         rng.shuffle(raw)
         return {"kind": "runhmmer", "cut": cut, "min": min_score, "maxev": max_ev, "raw": raw,
-                "pseed": rng.randrange(1 << 30)}
+                "filter": rng.random() < 0.8, "pseed": rng.randrange(1 << 30)}
 
     def rand_domains(self, rng: random.Random) -> Dict[str, Any]:
         lens = [rng.choice(self.LENS) for _ in DOCK_NAMES]
@@ -786,6 +804,31 @@ class C13(Property):
                     break
         return obs
 
+    def impl_refinerec(self, case: Dict[str, Any]) -> Dict[str, Any]:
+        from antismash.common import hmmscan_refinement as ref
+        lens = self._lens(case)
+
+        def run(raw: List[List[Any]]) -> Any:
+            res = ref.refine_hmmscan_results([_QueryResult([_HSP(f"g{g}", h)]) for g, h in raw], lens,
+                                             neighbour_mode=case["nb"])
+            assert all(res.values())            # a gene without refined hits has no entry
+            return ([[hit_json(r) for r in res.get(f"g{g}", [])] for g in range(case["ngenes"])],
+                    sorted(int(k[1:]) for k in res))
+        genes, keys = run(case["raw"])
+        obs: Dict[str, Any] = {"genes": genes, "keys": keys, "perm_bad": None, "alone_bad": None}
+        prng = random.Random(case.get("pseed", 0))
+        for _ in range(3):
+            o = list(case["raw"])
+            prng.shuffle(o)
+            if run(o) != (genes, keys):
+                obs["perm_bad"] = {"order": o, "out": run(o)}
+                break
+        for g in range(case["ngenes"]):
+            alone = run([r for r in case["raw"] if r[0] == g])[0][g]
+            if alone != genes[g]:
+                obs["alone_bad"] = {"gene": g, "alone": alone}
+        return obs
+
     def impl_runhmmer(self, case: Dict[str, Any]) -> Dict[str, Any]:
         from antismash.common import hmmer
         ngenes = max((r[0] for r in case["raw"]), default=-1) + 1
@@ -838,7 +881,7 @@ class C13(Property):
             hmmer.fasta.get_fasta_from_features = lambda _f: ""
             try:
                 res = hmmer.run_hmmer(record, list(record.m.values()), math.ldexp(case["maxev"], -60),
-                                      case["min"] / 4, "/", "tool")
+                                      case["min"] / 4, "/", "tool", filter_overlapping=case.get("filter", True))
             finally:
                 (hmmer.subprocessing.run_hmmscan, hmmer.pfamdb.get_pfam_id_from_name,
                  hmmer.pfamdb.get_pfam_cutoffs, hmmer.fasta.get_fasta_from_features) = saved
@@ -850,7 +893,7 @@ class C13(Property):
         base = run(case["raw"])
         prng = random.Random(case.get("pseed", 0))
         bad = None
-        for _ in range(4):
+        for _ in range(4 if case.get("filter", True) else 0):    # unfiltered: hmmscan order is kept by design
             o = list(case["raw"])
             prng.shuffle(o)
             got = run(o)
@@ -976,7 +1019,10 @@ class C13(Property):
         elif kind == "cp":
             line.update({"cut": case["cut"], "eq": case["eq"], "genes": self._group(case["raw"], case["ngenes"])})
         elif kind == "runhmmer":
-            line.update({"cut": case["cut"], "min": case["min"], "maxev": case["maxev"], "genes": self._group(case["raw"])})
+            line.update({"cut": case["cut"], "min": case["min"], "maxev": case["maxev"], "genes": self._group(case["raw"]),
+                         "filter": case.get("filter", True)})
+        elif kind == "refinerec":
+            line.update({"lens": case["lens"], "reg": REG, "nb": case["nb"], "raw": case["raw"], "ngenes": case["ngenes"]})
         elif kind == "domains":
             line.update({"lens": case["lens"], "names": DOCK_NAMES, "L": case["L"], "genes": case["genes"]})
         elif kind == "subtypes":
@@ -1156,6 +1202,20 @@ class C13(Property):
         return Judgement(corr, spec_ok, nontrivial=bool(drv["nontrivial"]),
                          tags=("cp", "tie" if any(drv["ties"]) else "distinct", "eq%d" % len(case["eq"])), detail=detail)
 
+    def judge_refinerec(self, case: Dict[str, Any], obs: Dict[str, Any], drv: Dict[str, Any]) -> Judgement:
+        corr = obs["genes"] == drv["model"] and obs["keys"] == sorted(drv["keys"])
+        spec_ok, detail = True, ""
+        if obs["perm_bad"] is not None:
+            spec_ok, detail = False, f"order dependence: {obs['genes']} vs {obs['perm_bad']}"
+        elif obs["alone_bad"] is not None:
+            spec_ok, detail = False, f"a gene's hits depend on the other genes: {obs['genes']} vs {obs['alone_bad']}"
+        elif obs["genes"] != drv["alone"]:
+            spec_ok, detail = False, f"not the per-gene refinement {drv['alone']}: {obs['genes']}"
+        if not corr and not detail:
+            detail = f"model {drv['model']} keys {drv['keys']} vs implementation {obs['genes']} keys {obs['keys']}"
+        return Judgement(corr, spec_ok, nontrivial=bool(drv["nontrivial"]),
+                         tags=("refinerec", "nb" if case["nb"] else "dl"), detail=detail)
+
     def judge_runhmmer(self, case: Dict[str, Any], obs: Dict[str, Any], drv: Dict[str, Any]) -> Judgement:
         model = [m.get("ok") for m in drv["model"]]
         corr = obs["genes"] == model
@@ -1207,7 +1267,7 @@ class C13(Property):
                 for i in range(len(g)):
                     yield dict(case, genes=case["genes"][:gi] + [g[:i] + g[i + 1:]] + case["genes"][gi + 1:])
             return
-        if kind in ("cp", "runhmmer"):
+        if kind in ("cp", "runhmmer", "refinerec"):
             raw = case["raw"]
             for i in range(len(raw)):
                 yield dict(case, raw=raw[:i] + raw[i + 1:])
